@@ -100,7 +100,7 @@ prop("C07", run="^TestC07", level="fault_enumeration",
 
 prop("C08", run="^TestC08", level="exploration",
      quick=(16, 400, 900), thorough=(16, 12000, 7200),
-     rule="byte strings: sizes 0..16, 2^k+-1 (k=4..24), 0..5000, uniform up to 131071 (raw LZ4) / 1 MiB, 10% up to 4 MiB (thorough 16 MiB) x content class (all-equal, short period, text, random, half/half, long run + random tail; compression ratio class recorded) "
+     rule="TestC08Frames: OPTIONS / READY (COMPRESSED flag set directly, as the server stub does), AUTH_RESPONSE / AUTH_CHALLENGE tokens and QUERY strings of 0..40 bytes or up to 300000 bytes, encoded with LZ4 / Snappy and without: same decoded content. byte strings: sizes 0..16, 2^k+-1 (k=4..24), 0..5000, uniform up to 131071 (raw LZ4) / 1 MiB, 10% up to 4 MiB (thorough 16 MiB) x content class (all-equal, short period, text, random, half/half, long run + random tail; compression ratio class recorded) "
           "x format {LZ4 raw, LZ4 with length, Snappy with length}. Oracle: D(C(x)) == x, LZ4 length prefix big-endian len(x), independent reference decoders expand the library's output to x, and the library expands blocks from independent encoders "
           "(literal-only, run-length) to x. Non-trivial = len >= 1; distinct by (format, content hash)",
      assumptions=["frame/segment-level 'compressed decodes like uncompressed' is exercised by C01/C06 on the same compressors"],
@@ -212,7 +212,7 @@ prop("C15", run="^TestC15", level="exploration",
 
 prop("C10", run="^TestC10", level="exploration",
      quick=(8, 120, 900), thorough=(16, 5000, 7200),
-     rule="shim level: ALL answer orders for k=1..5 outstanding requests (153 orders, each with a spurious response in the middle); rapid-generated interleavings for k<=12 with multi-page answers of 1..MaxPending pages (complete or cut short) and spurious responses, consumers reading after all deliveries. "
+     rule="TestC10Reuse: one stream id (caller-chosen, or managed with a limit of one) used for 3..5 requests in turn, each answered by 0..3 non-final pages and a final response tagged with its round, read at once or late - every frame must reach the request of its round; at the end 0..4 pages handed over but unread when the connection closes must still be readable in order. shim level: ALL answer orders for k=1..5 outstanding requests (153 orders, each with a spurious response in the middle); rapid-generated interleavings for k<=12 with multi-page answers of 1..MaxPending pages (complete or cut short) and spurious responses, consumers reading after all deliveries. "
           "Socket level (worker-isolated): library client x raw server peer, every version incl. v5 segments x compression, k<=10 tagged requests from 1..4 concurrent senders, answered in a generated order interleaved with EVENT envelopes (stream id -1, an unused id, or the id of a request still awaiting its answer: an EVENT is recognised by its opcode) and responses for an unused stream id, single-frame answers that are a READY (header-only envelope) for 1 request in 5, responses batched into few segments or sent one by one, multi-page answers on DSE versions. "
           "A fatal ERROR (server / protocol / authentication error) as the last of k responses is delivered to its request like any other before the connection is dropped. Event load: MaxInFlight (= event queue capacity) 1..4, up to 5 events beyond it pushed before a barrier response while nobody drains the event channel: every event reaches the handlers in order, the channel holds an in-order subsequence. Oracle: per request exactly its tagged frames in arrival order, channel closed after the last page with Err()==nil; events on the event channel and through handlers, in order, nothing else there; unknown-id responses change nothing. Non-trivial = >=2 outstanding requests or multi-page / interleaved extras; distinct by (k, pages, order) / session spec",
      assumptions=["multi-page answers never exceed MaxPending undelivered pages (beyond that the request is failed by design)"],
@@ -225,11 +225,12 @@ prop("C16", run="^TestC16", level="fault_enumeration",
      rule="(A) timeout clause on the in-flight handler shim: read timeout 100/200/400 ms, 0..6 non-final pages arriving every timeout/20 then silence or a final page; cases whose measured inter-page gap reached timeout/2 are discarded as noisy. "
           "(B) scripted sessions {connect, handshake, send K<=3 requests, answer some, one non-final page in progress, 0..3 receivers blocked in Receive/ReceiveEvent, optionally a goroutine hammering Send} against a library server or a raw TCP peer, with a fault {client Close, concurrent double Close, "
           "server-connection Close, server Close, context cancel, peer TCP close/reset} injected after each of the 5 step boundaries: the full (peer x fault x boundary x version in {4,5,DSE2}) matrix every run, plus rapid-generated sessions, plus rapid-generated schedules (yield / sleep / wait-until-point-reached, bounded 300 ms) "
-          "at 15 hook points of the client package. (C) faults in the MIDDLE of the handshake: a library server connection blocked in AcceptHandshake (raw client silent, after OPTIONS/SUPPORTED, or after STARTUP/AUTHENTICATE) or a library client blocked in InitiateHandshake (raw server silent after STARTUP or after AUTH_RESPONSE) x {peer FIN, peer RST, own Close, server Close, context cancel} x version x auth: "
+          "at 16 hook points of the client package. (C) faults in the MIDDLE of the handshake: a library server connection blocked in AcceptHandshake (raw client silent, after OPTIONS/SUPPORTED, or after STARTUP/AUTHENTICATE) or a library client blocked in InitiateHandshake (raw server silent after STARTUP or after AUTH_RESPONSE) x {peer FIN, peer RST, own Close, server Close, context cancel} x version x auth: "
           "the blocked call returns a non-nil error, Close returns, no goroutine survives. (D) timeout clause on a real connection: ReadTimeout drawn independently of ConnectTimeout (150-600 ms vs 20-60 s with a silent raw peer: the request fails with a timeout after >= 80 % and < read timeout + 8 s; 3-4 s vs 250-400 ms with an answer at 20-30 %: it is delivered). "
           "(F) Send racing with the end of the connection: 1-4 goroutines per side call Send without pause while the connection is closed from either end (5-25 rounds per case); no panic, every call returns. (E) the helper PerformHandshake with wrong credentials or a fault (client Close, server-connection Close, server Close, context cancel) 0-20 ms into it, and a server closed while an Accept is pending for a client it has not accepted: calls return, no goroutine survives, no panic. After the handler is closed IsDone/Err/Incoming of completed requests still return. One session in three uses caller-chosen stream ids outside 1..MaxInFlight (2000, -7, 32767). Worker-isolated. Oracle within 10 s: every accepted unanswered request has its channel closed, IsDone() and Err()!=nil; blocked receivers return; later Send fails; Close returns (twice, concurrently); no goroutine of the client package survives; no panic. "
           "(G) a final response being routed when the connection closes (in-flight handler shim): the delivering goroutine is parked at one of three hook points (after the lookup, after the request was unregistered, before the frame is handed over) until the context is cancelled and/or the handler closed; every request must end up completed; "
           "and the same race as stress (2000-10000 rounds x 2-8 workers per case, every fourth case) for the window no hook can own: no panic. "
+          "(H) the server closed while its accept loop registers a new TCP connection (held at a hook point until Close has closed the connections handler; 1-3 connections, AcceptAny pending or not): Close returns, nothing survives. (I) silent peer loss: a raw peer sends 0..8 bytes of a frame (optionally after a complete one) and goes quiet without closing its socket; within 10 s of the server's idle timeout (150-600 ms) the server connection is closed and a blocked Receive returns. "
           "Non-trivial = the fault lands with an unanswered request, a blocked receiver or before the script's end; distinct by session spec",
      assumptions=["all time bounds are generous upper bounds (10 s against sub-second behaviour); only 'still not done after the bound' or a panic counts",
                   "the window inside Send's select statement (operand evaluated, channel closed by Close, then send) has no hook point and is only reachable by stress repetition (TestC16SendCloseRace; the defect behind it was found by the thorough tier and repaired)"],
